@@ -262,7 +262,7 @@ func (n *nodeDiag) Error(msg string, err error, ctx ...keyvalue.T) {
 	n.d.mu.Unlock()
 }
 func (n *nodeDiag) AlertTriggered(level alert.Level, id string, message string, rows *models.Row) {}
-func (n *nodeDiag) SettingReplicas(new int, old int, id string)                                  {}
+func (n *nodeDiag) SettingReplicas(new int, old int, id string)                                   {}
 func (n *nodeDiag) StartingBatchQuery(q string) {
 	n.d.mu.Lock()
 	n.d.Queries = append(n.d.Queries, q)
@@ -326,16 +326,16 @@ func (Deadman) Global() bool            { return false }
 
 type serverInfo struct{}
 
-func (serverInfo) ClusterID() uuid.UUID   { return uuid.Nil }
-func (serverInfo) ServerID() uuid.UUID    { return uuid.Nil }
-func (serverInfo) Hostname() string       { return "verif" }
-func (serverInfo) Version() string        { return "verif" }
-func (serverInfo) Product() string        { return "kapacitor" }
-func (serverInfo) Platform() string       { return "verif" }
-func (serverInfo) NumTasks() int64        { return 0 }
-func (serverInfo) NumEnabledTasks() int64 { return 0 }
+func (serverInfo) ClusterID() uuid.UUID    { return uuid.Nil }
+func (serverInfo) ServerID() uuid.UUID     { return uuid.Nil }
+func (serverInfo) Hostname() string        { return "verif" }
+func (serverInfo) Version() string         { return "verif" }
+func (serverInfo) Product() string         { return "kapacitor" }
+func (serverInfo) Platform() string        { return "verif" }
+func (serverInfo) NumTasks() int64         { return 0 }
+func (serverInfo) NumEnabledTasks() int64  { return 0 }
 func (serverInfo) NumSubscriptions() int64 { return 0 }
-func (serverInfo) Uptime() time.Duration  { return 0 }
+func (serverInfo) Uptime() time.Duration   { return 0 }
 
 // ---------------------------------------------------------------- environment
 
